@@ -238,6 +238,213 @@ def gen_ring_ops():
     p = os.path.join(OUT, "RingOps.lean")
     if not os.path.exists(p) or open(p).read() != new: open(p, "w").write(new)
 
+
+# ---------------------------------------------------------------------------------------------------------------- G5
+# the per-item decision of the stream executors (property C11): for every `spawn_*executor` function and each of its `item_processor`
+# closures, the tree of `match` arms and instrument guards is walked and every leaf is emitted as
+#   (outcome path, cheap_profiling?, effects)   -- effects: which event counter is fed, how the error callback is invoked
+# plus the arms of `match concurrency_limit` (which combinator gets which limit).  -> lean/Mutiny/Generated/ExecTable.lean
+EXEC_FILE = "src/stream_executor.rs"
+EXEC_FNS = ["spawn_executor", "spawn_futures_executor", "spawn_fallibles_executor", "spawn_non_futures_executor",
+            "spawn_non_futures_non_fallibles_executor"]
+OUTCOME_PATS = ["Ok(yielded_item)", "Err(err)", "Err(_time_out_err)", "Ok(non_timed_out_result)"]
+
+def match_brace(src, i, open_c="{", close_c="}"):
+    """index of the brace closing the one at src[i]"""
+    depth = 0
+    j = i
+    while j < len(src):
+        c = src[j]
+        if c == '"':                                   # skip string literals (log messages contain braces)
+            j += 1
+            while src[j] != '"':
+                if src[j] == "\\": j += 1
+                j += 1
+        elif c == open_c: depth += 1
+        elif c == close_c:
+            depth -= 1
+            if depth == 0: return j
+        j += 1
+    raise SystemExit("extract.py (G5): unbalanced braces")
+
+def macro_effects(src):
+    """macro name -> (guard predicate, counter) from the `on_*_item!` macro definitions"""
+    out = {}
+    for m in re.finditer(r"macro_rules!\s+(on_(?:non_)?timed_(?:ok|err)_item)\s*\{", src):
+        body = src[m.end():match_brace(src, m.end() - 1)]
+        g = re.search(r"if\s+\$INSTRUMENTS\.(\w+)\(\)\s*\{\s*\$self\.(\w+?)_events_avg_future_duration\.inc\(", body)
+        if not g: raise SystemExit(f"extract.py (G5): macro {m.group(1)}: no guarded counter update found")
+        out[m.group(1)] = (g.group(1), g.group(2))
+    return out
+
+def leaves(text, macros, path, guards):
+    """walks a block of the item processor; yields (path, guards, effects) for every way through it"""
+    # sequential composition: effects of the straight-line part + one alternative of every branching construct, in order
+    results = [([], dict(guards))]          # (effects so far, guards so far)
+    i = 0
+    def add_effect(e):
+        for r in results: r[0].append(e)
+    while i < len(text):
+        m = re.compile(r"\bmatch\b|\bif\b|on_(?:non_)?timed_(?:ok|err)_item!|(\w+)_events_avg_future_duration\.inc\(|on_err_callback\w*\s*\(").search(text, i)
+        if not m: break
+        tok = m.group(0)
+        if tok == "match":
+            b = text.index("{", m.end())
+            e = match_brace(text, b)
+            arms = split_arms(text[b + 1:e])
+            new = []
+            for eff, g in results:
+                for pat, body in arms:
+                    sub = leaves(body, macros, path + ([pat] if pat in OUTCOME_PATS else []), g)
+                    for (p2, g2, e2) in sub: new.append((eff + e2, g2, p2))
+            # paths: carried separately
+            return finish(new, text[e + 1:], macros)
+        elif tok == "if":
+            c = re.match(r"\s*(?:Self::INSTRUMENTS|\$INSTRUMENTS)\.(\w+)\(\)\s*\{", text[m.end():])
+            if not c:
+                i = m.end(); continue
+            b = m.end() + c.end() - 1
+            e = match_brace(text, b)
+            then_t = text[b + 1:e]
+            rest = text[e + 1:]
+            else_t = ""
+            em = re.match(r"\s*else\s*(if\b[^{]*)?\{", rest)
+            after = rest
+            if em:
+                if em.group(1):                          # `else if <cond> { … }`: treated as an else block containing that `if`
+                    eb = e + 1 + em.end() - 1
+                    ee = match_brace(text, eb)
+                    else_t = em.group(1) + text[eb:ee + 1]
+                    after = text[ee + 1:]
+                else:
+                    eb = e + 1 + em.end() - 1
+                    ee = match_brace(text, eb)
+                    else_t = text[eb + 1:ee]
+                    after = text[ee + 1:]
+            pred = c.group(1)
+            new = []
+            for eff, g in results:
+                for val, blk in ((True, then_t), (False, else_t)):
+                    if pred in g and g[pred] != val: continue
+                    g2 = dict(g); g2[pred] = val
+                    for (p2, g3, e2) in leaves(blk, macros, path, g2): new.append((eff + e2, g3, p2))
+            return finish(new, after, macros)
+        elif tok.startswith("on_") and tok.endswith("!"):
+            name = tok[:-1]
+            pred, counter = macros[name]
+            # the macro feeds its counter only under its own guard
+            new = []
+            for eff, g in results:
+                if g.get(pred, None) is False: new.append((eff, g))
+                elif g.get(pred, None) is True: new.append((eff + [counter], g))
+                else:
+                    g1 = dict(g); g1[pred] = True; new.append((eff + [counter], g1))
+                    g0 = dict(g); g0[pred] = False; new.append((eff, g0))
+            results = new
+            b = text.index("(", m.end() - 1) if text[m.end() - 1] != "(" else m.end() - 1
+            i = match_brace(text, text.index("(", m.end()), "(", ")") + 1
+        elif "_events_avg_future_duration.inc(" in tok:
+            add_effect(m.group(1))
+            i = m.end()
+        else:   # the error callback
+            call_end = match_brace(text, m.end() - 1, "(", ")")
+            tail = text[call_end + 1:call_end + 8]
+            before = text[max(0, m.start() - 14):m.start()]
+            how = "onErr.await" if tail.lstrip().startswith(".await") else ("onErr.spawned" if "spawn(" in before else "onErr.sync")
+            add_effect(how)
+            i = call_end + 1
+    return [(path, g, eff) for eff, g in results]
+
+def finish(partial, rest, macros):
+    """continues every partial result (effects, guards, path) through the text that follows the branching construct"""
+    out = []
+    for eff, g, p in partial:
+        for (p2, g2, e2) in leaves(rest, macros, p, g): out.append((p2, g2, eff + e2))
+    return out
+
+def split_arms(body):
+    """`pat => expr,` arms of a match body (top level only)"""
+    arms = []
+    i = 0
+    while True:
+        m = re.compile(r"\s*([^=\n]+?)\s*=>\s*").match(body, i)
+        if not m: break
+        pat = m.group(1).strip()
+        j = m.end()
+        if j < len(body) and body[j] == "{":
+            e = match_brace(body, j)
+            arms.append((pat, body[j + 1:e]))
+            i = e + 1
+        else:
+            # expression arm: up to the top-level comma / end
+            depth = 0; k = j
+            while k < len(body):
+                c = body[k]
+                if c in "({[": depth += 1
+                elif c in ")}]": depth -= 1
+                elif c == "," and depth == 0: break
+                k += 1
+            arms.append((pat, body[j:k]))
+            i = k
+        while i < len(body) and body[i] in ", \n\t": i += 1
+    return arms
+
+def gen_exec_table():
+    src = strip_comments(open(os.path.join(REPO, EXEC_FILE)).read())
+    macros = macro_effects(src)
+    lines = ["/-! GENERATED by tools/extract.py (G5) from /repo's current `src/stream_executor.rs` on every run -- do not edit.",
+             "",
+             "Per executor function and per `item_processor` closure (in source order: for the two functions that `match self.futures_timeout`, the",
+             "first closure is the `Duration::ZERO` arm, the second the timeout arm): every way through the closure as",
+             "`(outcome path, cheap_profiling, effects)` -- outcome path = the `Ok(..)` / `Err(..)` match arms taken, effects = the event counters fed (`ok`,",
+             "`failed`, `timed_out`) and how the error callback is invoked -- and the arms of `match concurrency_limit`. -/",
+             "namespace Mutiny.Generated.ExecTable", ""]
+    for fn in EXEC_FNS:
+        m = re.search(r"pub fn\s+" + fn + r"\s*<", src)
+        if not m: raise SystemExit(f"extract.py (G5): function {fn} not found")
+        b = src.index("{", src.index(")", match_brace(src, src.index("(", m.end()), "(", ")")))
+        body = src[b + 1:match_brace(src, b)]
+        procs = []
+        for pm in re.finditer(r"let\s+item_processor\s*=\s*", body):
+            # up to the `;` at depth 0
+            depth = 0; k = pm.end()
+            while k < len(body):
+                c = body[k]
+                if c == '"':
+                    k += 1
+                    while body[k] != '"':
+                        if body[k] == "\\": k += 1
+                        k += 1
+                elif c in "({[": depth += 1
+                elif c in ")}]": depth -= 1
+                elif c == ";" and depth == 0: break
+                k += 1
+            procs.append(body[pm.end():k])
+        if not procs: raise SystemExit(f"extract.py (G5): {fn}: no item_processor closure found")
+        for n, ptxt in enumerate(procs):
+            rows = set()
+            for (path, g, eff) in leaves(ptxt, macros, [], {}):
+                cp = g.get("cheap_profiling", None)
+                for v in ([cp] if cp is not None else [True, False]):
+                    rows.add((">".join(path), v, tuple(eff)))
+            rows = sorted(rows)
+            lines.append(f"def {fn}_{n} : List (String × Bool × List String) := [")
+            lines.append(",\n".join(f'  ("{p}", {"true" if v else "false"}, [' + ", ".join(f'"{e}"' for e in eff) + "])" for p, v, eff in rows))
+            lines.append("]")
+            lines.append("")
+        lims = []
+        for lm in re.finditer(r"match\s+concurrency_limit\s*\{", body):
+            for pat, arm in split_arms(body[lm.end():match_brace(body, lm.end() - 1)]):
+                c = re.search(r"stream\.(for_each(?:_concurrent)?)\(\s*([^,|)]*?)\s*(?:,|\||\))", arm)
+                lims.append(f"{pat}:{c.group(1)}({c.group(2).strip() if c.group(1) == 'for_each_concurrent' else ''})" if c else f"{pat}:?")
+        lines.append(f"def {fn}_limit : List String := [" + ", ".join(f'"{x}"' for x in lims) + "]")
+        lines.append(f"def {fn}_closures : Nat := {len(procs)}")
+        lines.append("")
+    lines.append("end Mutiny.Generated.ExecTable")
+    new = "\n".join(lines) + "\n"
+    p = os.path.join(OUT, "ExecTable.lean")
+    if not os.path.exists(p) or open(p).read() != new: open(p, "w").write(new)
+
 def main():
     os.makedirs(OUT, exist_ok=True)
     lines = ["import Mutiny.Model.Teardown",
@@ -279,3 +486,4 @@ if __name__ == "__main__":
     main()
     gen_wake_rules()
     gen_ring_ops()
+    gen_exec_table()
